@@ -364,7 +364,8 @@ def replay_main(path):
             tb = traceback.extract_tb(e.__traceback__)
             root = repo_root()
             if not isinstance(e, LibraryMisbehaved) and (not tb or not os.path.realpath(tb[-1].filename).startswith(root + os.sep)):
-                raise
+                print('this failure kind has no single-case replay (%r); re-run the check with VERIF_SEED=%s to reproduce it' % (e, d.get('seed')))
+                return 2
             ctx.fail('api_raised_unexpectedly', f.get('case'), exc=repr(e),
                      where='%s:%d %s' % (os.path.basename(tb[-1].filename), tb[-1].lineno, tb[-1].name) if tb else '')
     if ctx.failures:
